@@ -135,12 +135,8 @@ func (r resolver) FindMessageByURL(u string) (protoreflect.MessageType, error) {
 }
 
 func comment(d protoreflect.Descriptor) string {
-	c := d.ParentFile().SourceLocations().ByDescriptor(d).LeadingComments
-	var lines []string
-	for _, l := range strings.Split(c, "\n") {
-		lines = append(lines, strings.TrimRight(l, " "))
-	}
-	return strings.TrimSpace(strings.Join(lines, "\n"))
+	// compared exactly: the property asks for the same leading comments
+	return d.ParentFile().SourceLocations().ByDescriptor(d).LeadingComments
 }
 
 func (d *dumper) file(fd protoreflect.FileDescriptor) []string {
